@@ -521,10 +521,99 @@ def concurrent_sessions_part(ctx, st):
     return n
 
 
+def config_file_case(args):
+    """The configuration as a FILE: the plug-in blocks and the TLS client-auth switch are written as the server's
+    configuration file, parsed by the real `config.py`, handed to sessions by the real `KmipServer` front end
+    (`server.py` `_setup_connection_handler`).  What reaches request processing is judged by `spec_identity` (the
+    property's sentence) on the configuration AS WRITTEN."""
+    import server_front
+    import random as _r
+    k, seed = args
+    rnd = _r.Random(seed)
+    label, settings, services = plugin_configs()[k % len(plugin_configs())]
+    tls_written = [None, "True", "False", "true", "no", "1", "0"][(k // len(plugin_configs())) % 7]
+    tls = True if tls_written is None else tls_written.lower() in ("true", "1", "yes", "on")
+    extra = ""
+    for name, c in settings:
+        extra += "[%s]\n" % name + "".join("%s=%s\n" % (kk, vv) for kk, vv in c.items())
+    fails, n = [], 0
+    saved = S.slugs_mod.requests
+    fs = None
+    try:
+        fs = server_front.FrontServer(extra_conf=extra, tls_line=("" if tls_written is None else "enable_tls_client_auth=%s\n" % tls_written))
+        got_plugins = fs.server.config.settings.get("auth_plugins")
+        # (the plug-in blocks of a configuration file are its sections named auth:...; any other section is not one)
+        want_plugins = [(nm, dict((kk.lower(), str(vv)) for kk, vv in c.items())) for nm, c in settings if nm.startswith("auth:")]
+        if [(a, dict(b)) for a, b in (got_plugins or [])] != want_plugins:
+            fails.append(("c17:config-plugins-differ-from-file", "the file defines %r, the server holds %r" % (want_plugins, got_plugins)))
+        if fs.server.config.settings.get("enable_tls_client_auth") is not tls:
+            fails.append(("c17:config-tls-switch-differs-from-file", "enable_tls_client_auth written %r, the server holds %r"
+                          % (tls_written, fs.server.config.settings.get("enable_tls_client_auth"))))
+        calls = []
+        orig = fs.server._engine.process_request
+
+        def rec(request, credential=None):
+            calls.append(credential)
+            return orig(request, credential)
+        fs.server._engine.process_request = rec
+        S.slugs_mod.requests = S._RequestsShim(S.FakeSlugs(services))
+        certs = [c for c in cert_shapes() if c is None or c["cns"] in (1, 2)]
+        for cert in rnd.sample(certs, 6) + [{"cns": 1, "eku": "client"}, {"cns": 1, "eku": "absent"}]:
+            rname, frame = rnd.choice(requests_pool()[:4])
+            del calls[:]
+            conn = fs.serve([frame], S.cert_der(cert))
+            n += 1
+            want = spec_identity(cert, tls, settings, services)
+            tag = "config file [enable_tls_client_auth=%s; %s] cert=%s request=%s" % (tls_written, label, json.dumps(cert), rname)
+            if want == UNSPEC:
+                continue
+            if calls and want is None:
+                fails.append(("c17:engine-entered-without-identity", "%s: request processing entered with %r although no "
+                              "identity can be established" % (tag, calls[0])))
+            elif calls and want is not None:
+                got = (calls[0][0], None if calls[0][1] is None else list(calls[0][1]))
+                if got != (want[0], want[1]):
+                    fails.append(("c17:identity-passed-differs", "%s: engine received %r, established identity is %r" % (tag, got, want)))
+            elif not calls and want is not None:
+                fails.append(("c17:established-identity-not-served", "%s: identity %r established but the request was not processed" % (tag, want)))
+            if len(conn.out) != 1:
+                fails.append(("c17:no-single-decodable-response", "%s: %d responses" % (tag, len(conn.out))))
+    except Exception as e:
+        import traceback
+        fails.append(("c17:config-file-rejected", "a configuration file with [enable_tls_client_auth=%s; %s] could not be served: %s: %s %s"
+                      % (tls_written, label, type(e).__name__, str(e)[:200], traceback.format_exc()[-300:])))
+    finally:
+        S.slugs_mod.requests = saved
+        if fs is not None:
+            try:
+                fs.close()
+            except Exception:
+                pass
+    return fails, n
+
+
+def config_file_part(ctx, st):
+    import multiprocessing
+    nconf = len(plugin_configs())
+    ks = list(range(nconf * 7)) if ctx.tier != "quick" else [(ctx.seed * 5 + 3 * i) % (nconf * 7) for i in range(nconf)] + list(range(0, nconf * 7, nconf))
+    args = [(k, ctx.seed * 41 + k) for k in sorted(set(ks))]
+    with multiprocessing.get_context("fork").Pool(8) as pool:
+        res = pool.map(config_file_case, args)
+    n = 0
+    for a, (fails, k) in zip(args, res):
+        n += k
+        for sig, what in fails[:3]:
+            ctx.report(sig, what, {"kind": "config-file", "args": list(a)})
+    ctx.coverage["config_file_configurations"] = len(args)
+    ctx.coverage["config_file_sessions"] = n
+    return n
+
+
 def run(ctx):
     cfgs = corpus_cfgs() + configurations(ctx.seed, ctx.tier)
     st, divs = execute(ctx, cfgs)
     nshared = shared_settings_part(ctx, st) + concurrent_sessions_part(ctx, st)
+    nshared += config_file_part(ctx, st)
     ctx.coverage.update({
         "sessions_on_one_shared_settings_object": nshared,
         "shared_settings_objects_modified_by_sessions": st.get("shared_settings_modified", 0),
@@ -554,6 +643,11 @@ def search(ctx, broken):
 
 def replay(ctx, rep):
     r = rep["replay"]
+    if r.get("kind") == "config-file":
+        fails, _n = config_file_case(tuple(r["args"]))
+        for sig, what in fails:
+            print("  %s: %s" % (sig, what[:400]))
+        return not fails
     if r.get("kind") == "phased":
         import props.c12 as c12
         rig = S.Rig()
